@@ -138,6 +138,9 @@ def rule_segmerge(ctx):
         yield ob(R, f, "chord.merge_chord_intervals:encoding", False, "neighbouring chords are no longer compared through chord.encode_many: differently spelled but identical chords (C#:maj / Db:maj) would not merge")
         yield ob(R, f, "chord.merge_chord_intervals:fusion-condition", False, "fusion is not decided on the encoded (root, bitmap, bass) triple")
         return
+    # no return path skips the encoded comparison (a shortcut deciding on the label text merges less than the encoding does)
+    bypass = [r for r in s.returns if not any(x is enc[0].term for x in tm.walk(r.term))]
+    yield ob(R, f, "chord.merge_chord_intervals:no-bypass", not bypass and not any(symeval.pc_conds(c.pc) for c in enc), "every return is computed from the encoded labels" if not bypass else "a return path yields %s without consulting the encoding (under %s): equal chords spelled differently stay unmerged there" % (tm.show(bypass[0].term, 3), "; ".join(tm.show(c, 3) for c, _ in symeval.pc_conds(bypass[0].pc))), node=bypass[0].node if bypass else None)
     red = enc[0].args[1] if len(enc[0].args) > 1 else dict(enc[0].kw).get("reduce_extended_chords")
     yield ob(R, f, "chord.merge_chord_intervals:encoding", enc[0].args[0].op == "param" and red is not None and tm.is_const(red, True), "labels are encoded with extended chords reduced (encode_many(labels, True))")
     app = [m for m in s.by_kind("mutate") if m.how == "method:append" and m.root]
@@ -243,12 +246,26 @@ def rule_nceform_shared(ctx):
         yield o
 
 
+def rule_cropshared(ctx):
+    """Shared with C13.CROPSTRICT / PADSPAN: an estimated interval that straddles the reference start is clipped, not
+    dropped - the first kept row is the first one that *ends* after t_min - so cutting that interval in two leaves the
+    clipped annotation (and every duration-weighted score) unchanged."""
+    from . import c13
+
+    for o in c13.rule_cropstrict(ctx, rule="C12.CROPSHARED"):
+        yield o
+    for o in c13.rule_padspan(ctx):
+        o.rule = "C12.CROPSHARED"
+        yield o
+
+
 RULES = [
+    ("C12.CROPSHARED", 8, rule_cropshared),
     ("C12.FRAMEMAP", 4, rule_framemap),
     ("C12.NCEFORM", 5, rule_nceform_shared),
     ("C12.NCEGUARD", 2, rule_nceguard),
     ("C12.PIPELINE", 21, rule_pipeline),
     ("C12.WEIGHTNORM", 2, rule_weightnorm),
-    ("C12.SEGMERGE", 4, rule_segmerge),
+    ("C12.SEGMERGE", 5, rule_segmerge),
     ("C12.FRAMEONLY", 10, rule_frameonly),
 ]
